@@ -5,6 +5,7 @@ import (
 	"encoding/xml"
 	"fmt"
 	"io"
+	"math"
 	"os"
 	"path/filepath"
 	"strings"
@@ -584,11 +585,26 @@ func (p *TextLayoutPango) setTabs() {
 	tabSize := p.Style.TabSize
 	width := tabSize.Width
 	if tabSize.IsMultiple { // no unit, means a multiple of the advance width of the space character
-		layout := newTextLayout(p.fonts, p.Style, nil)
-		layout.SetText(strings.Repeat(" ", width))
-		line, _ := layout.GetFirstLine()
-		widthTmp, _ := lineSize(line, p.Style.LetterSpacing)
-		width = int(widthTmp + 0.5)
+		// the width of n spaces grows linearly with n: lay out at most two of them
+		// (laying out all of them exhausts the memory with a huge tab-size)
+		spaces := func(n int) pr.Fl {
+			layout := newTextLayout(p.fonts, p.Style, nil)
+			layout.SetText(strings.Repeat(" ", n))
+			line, _ := layout.GetFirstLine()
+			w, _ := lineSize(line, p.Style.LetterSpacing)
+			return w
+		}
+		if width <= 2 {
+			width = int(spaces(width) + 0.5)
+		} else {
+			one, two := spaces(1), spaces(2)
+			widthTmp := one + pr.Fl(width-1)*(two-one)
+			// positions are 32-bit Pango units: clamp the interval so that a line can hold several tab stops
+			if max := pr.Fl(math.MaxInt32 / pango.Scale / 16); widthTmp > max {
+				widthTmp = max
+			}
+			width = int(widthTmp + 0.5)
+		}
 	}
 	// 0 is not handled correctly by Pango
 	if width == 0 {
